@@ -15,12 +15,16 @@ LEVEL = "exploration"
 RULE = (
     "(c) bounded family enumerated completely in both tiers: 3 ports, one single-micro-op form per non-empty port subset with 1 and "
     "with 2 cycles, every ordered kernel of length <= 4 (<= 3 when a 2-cycle form occurs) = 5355 kernels, CLI configuration "
-    "(two passes) within 0.15 of the exact optimum; (a)(b) on C01's random workload (synthetic models, shipped-model streams): "
+    "(two passes) within 0.15 of the exact optimum; three further bounded families are enumerated completely as well and held to the "
+    "same bound, which the unchanged tree meets on all of them: B 4 ports, single-micro-op forms, length <= 3 (4305 kernels); C 3 ports, "
+    "1-cycle single-micro-op forms plus two-micro-op forms on disjoint port sets, length <= 3 (7239); D 4 ports, three 2-cycle "
+    "single-port forms plus one arbitrary form in every position (6912); (a)(b) on C01's random workload (synthetic models, shipped-model streams): "
     "optimised <= uniform + 0.01 and optimised >= optimum - tolerance. Non-trivial: uniform bottleneck exceeds the optimum by "
     "more than 0.05 (there is something to balance); distinct by digest of (model, kernel)"
 )
 ASSUMPTIONS = [
     "bottleneck = max over ports of get_throughput_sum (rounded to 0.01 by the code under test)",
+    "the statement's own bounded family is the 3-port one (A); B-D are additions of this check (same bound, complete enumeration)",
     "undercut tolerance: 0.01 + sum of C01's per-instruction tolerances; an undercut is attributed to C01's known finding only when "
     "C01's own classifier fires with exactly that key on the same kernel",
 ]
